@@ -197,7 +197,8 @@ theorem validateBorrow_ok (cfg : Cfg) (cash reserves totB dep bor new : Coins)
     (h : validateBorrow cfg cash reserves totB dep bor new = .ok ()) :
     pricesOk cfg dep = true ∧ pricesOk cfg bor = true ∧ pricesOk cfg new = true ∧
     valueOf cfg new + valueOf cfg bor ≤ borrowable cfg dep ∧
-    cfg.minBorrow.m ≤ valueOf cfg new + valueOf cfg bor ∧ (supp cfg.ds new).isEmpty = false := by
+    cfg.minBorrow.m ≤ valueOf cfg new + valueOf cfg bor ∧ (supp cfg.ds new).isEmpty = false ∧
+    isWithinLtv cfg dep (addC bor new) = .ok true := by
   unfold validateBorrow at h
   simp only at h
   split at h
@@ -227,7 +228,13 @@ theorem validateBorrow_ok (cfg : Cfg) (cash reserves totB dep bor new : Coins)
     · cases h
     rename_i hltv
     have hv : proposed = valueOf cfg new := by rw [e]; unfold valueOf; omega
-    refine ⟨by simpa using hpd, by simpa using hpb, ?_, by omega, by omega, by simpa using hne⟩
+    have hwithin : isWithinLtv cfg dep (addC bor new) = .ok true := by
+      split at h
+      · cases h
+      · cases h
+      · cases h
+      · rename_i hw; exact hw
+    refine ⟨by simpa using hpd, by simpa using hpb, ?_, by omega, by omega, by simpa using hne, hwithin⟩
     rw [pricesOk_iff]
     intro d hd hc
     exact hall d ((mem_supp _ _ _).mpr ⟨hd, hc⟩)
@@ -350,6 +357,10 @@ def dep : Coins := fun d => if d = 0 then 2000000 else 0
 def half : Coins := fun d => if d = 1 then 500000 else 0
 def big : Coins := fun _ => 1000000000000
 def one0 : Coins := fun d => if d = 0 then 1 else 0
+/-- a smaller second borrow that stays inside the range -/
+def small : Coins := fun d => if d = 1 then 400000 else 0
+/-- the collateral (denom 0) has fallen to 0.4: borrowing power 0.4 < 0.5 borrowed -/
+def cfgLow : Cfg := ⟨[0, 1], fun d => if d = 0 then { mA with price := ⟨4 * (P / 10)⟩ } else mB, ⟨0⟩⟩
 
 /-- user 0 after depositing `dep` and borrowing `half` once; user 1 is a lender of denom 1 -/
 def st : St :=
